@@ -133,7 +133,14 @@ func selectContracts(eng *Engine, prop string) []*Contract {
 			out = append(out, c)
 			continue
 		}
-		for _, cl := range append(append([]Clause{}, c.Ensures...), c.Requires...) {
+		all := append(append([]Clause{}, c.Ensures...), c.Requires...)
+		for _, l := range c.Loops {
+			all = append(all, l.Invariants...)
+		}
+		for _, ca := range c.CallAsserts {
+			all = append(all, ca.Clause)
+		}
+		for _, cl := range all {
 			if hasProp(cl.Props, prop) {
 				out = append(out, c)
 				break
